@@ -510,6 +510,11 @@ def run(F, rep, tier):
     G = reach.Graph(F)
     M = model.Model(F, rep, want=("with_capacity", "push_null", "read_push"))
     structure_rules(F, G, rep, M)
+    # the game handed out is the finished representation: every column built row by row reaches it through the
+    # `From<mutable::X> for X` conversions, field for field and unfiltered (a validity bitmap turned into None, a column
+    # dropped, loses the rows it carried)
+    Mf = model.Model(F, rep, want=("from",))
+    model.rule_L3(rep, Mf, sibs=("from",))
     # positive control: the bracketing walker must flag an opener that is not preceded by a closer below 3.0
     b, m, arms = events.find_dispatch(F)
     op, cl = bracket.openers_closers(F, G)
